@@ -5,10 +5,15 @@
         ((exists t, parse_core false ts = POk t) <-> accepts sh_bash ts = true)
    and the same for (parse_core true, sh_dash).  go_dev is the decidable (over-approximating) union of
    the known divergence classes KF-C12-1..5 and the documented `!` difference.
+   Unbounded, proved below for the simple-command core only: callExpr's word/redirection loop accepts exactly the
+   grammar's cmd_suffix (C12_simple_command_suffix_sound/_complete_partial, all token lists, induction on fuel).  The
+   remaining part of the unbounded iff needs a simulation between the two differently factored recursive descents
+   (stmts/getStmt/and_or/gotStmtPipe/pipe_loop/compound clauses vs list/and_or/pipeline/command/compound_command) and a
+   suffix-closed reformulation of go_dev; it was not mechanised in the time available.
    Proved below: the statement for every token list of length <= 4 (31^0+..+31^4 = 954,305 lists, of which
    the in-scope ones are checked exhaustively inside the kernel), plus `_refuted` witnesses showing that each
    known class is a real divergence of the model (= of the Go parser, by the code leg) from the shells' grammar. *)
-From Verif Require Import Base.Str Syntax.CoreGrammar Proofs.CoreGrammarBounded.
+From Verif Require Import Base.Str Syntax.CoreGrammar Proofs.CoreGrammarBounded Proofs.CoreGrammarC12.
 
 Theorem C12_accepts_iff_grammar_upto4_bash_partial : forall ts, length ts <= 4 -> go_dev ts = false ->
   accepted (parse_core false ts) = accepts sh_bash ts.
@@ -49,3 +54,16 @@ Example C12_scope_nonvacuous : go_dev [TIf; TName; TSemi; TThen] = false /\ go_d
   accepts sh_bash [TName; TPipe; TName; TAmp] = true.
 Proof. exact scope_nonvacuous. Qed.
 Print Assumptions C12_scope_nonvacuous.
+
+(* ---- unbounded component lemmas (simple-command core) ---- *)
+Theorem C12_simple_command_suffix_sound_partial : forall px f o first ts rest,
+  no_ionum_target ts = true ->
+  call_loop px f o QNone first ts = POk rest -> a_suffix f ts = Some rest.
+Proof. exact call_loop_sound. Qed.
+Print Assumptions C12_simple_command_suffix_sound_partial.
+
+Theorem C12_simple_command_suffix_complete_partial : forall px f o first ts rest,
+  a_suffix f ts = Some rest -> not_paren_head rest = true ->
+  call_loop px f o QNone first ts = POk rest.
+Proof. exact call_loop_complete. Qed.
+Print Assumptions C12_simple_command_suffix_complete_partial.
